@@ -128,8 +128,10 @@ type Match struct {
 
 type NetFault struct {
 	M   Match  `json:"match"`
-	Do  string `json:"do"` // drop|dup|delay|corrupt|truncate
+	Do  string `json:"do"` // drop|dup|delay|corrupt|truncate|partition
 	Arg int64  `json:"arg,omitempty"`
+	// partition: every datagram of the flow sent in [AtNS, AtNS+Arg) is lost (then it heals)
+	AtNS int64 `json:"at_ns,omitempty"`
 }
 
 type IOFault struct {
